@@ -173,7 +173,7 @@ def project(cs, evs):
             ghost = (e.get("local", "") in ("", None) and not e.get("minibuf") and not e.get("rec") and not e.get("argset")
                      and not e.get("regsel") and not hintkey and not sticky)
             out.append(({"ev": "wait", "prompt": [[x[0], x[1]] for x in e["pglyphs"]], "buf": [[x[0], x[1]] for x in g],
-                         "curidx": cur_indices(g, e["cur"]), "ghost": bool(ghost), "sametop": same},
+                         "curidx": cur_indices(g, e["cur"]), "ghost": bool(ghost), "sametop": same, "rprompt": [ord(ch) for ch in cs.get("rprompt", "")]},
                         {k: v for k, v in e.items() if k not in ("cells",)}))
             same = True
         elif ev in ("panic", "hang", "died", "linger"):
@@ -196,6 +196,10 @@ def make_cases(rng, n, tier):
         cs = {"id": "c04-%d" % ci, "inputrc": ("set editing-mode vi\n" if mode == "vi" else ""), "w": W, "h": rng.choice([24, 24, 12, 40]),
               "prompt": prompt, "screen": True, "wrap": "none", "setups": [], "sessions": [],
               "sources": [{"name": "main", "kind": "mem", "lines": ["short", "a history line that is quite a bit longer than one row", "two\nlines"]}]}
+        if ci % 4 == 3 and W >= 20:
+            # the application also shows a right-side prompt (narrow characters): it may appear flush right on the last row of
+            # the input, never anywhere else, and never instead of the text
+            cs["rprompt"] = rng.choice(["R", "[12:00]", "<< right", "12:34:56 main"])
         for si in range(3):
             sess = []
             for xi in range(rng.randint(2, 5)):
